@@ -17,7 +17,11 @@
  *      /tmp/inproc_accept_pipe_alloc_fail 7       (one trial in-process)
  * Exit status 1 = defect present, 0 = all injected failures handled cleanly.
  *
- * What goes wrong on the tree as found (see modules/inproc/FINDINGS.md):
+ * Prints before the fixes: "k=5 CRASH signal 11", "k=6 CRASH signal 11", "FAIL: 2 bad trials";
+ * with 93be1d9 only: "k=6: 1 blocks (216 bytes) leaked", "FAIL: 1 bad trials";
+ * with 93be1d9 + 21af0b0: "PASS: all injected failures were handled cleanly".
+ *
+ * What goes wrong on the tree as found:
  *   - when the pipe object of either side cannot be created AFTER its
  *     transport part was initialised (pipe_create fails on the pipe id or the
  *     protocol part), or when the listener side pipe cannot be allocated
